@@ -37,7 +37,7 @@ def call(ex, e, st):
     f = e.func
     if isinstance(f, ast.Name):
         name = f.id
-        if name in speclang.SPEC and (ex.quiet or name in ("forall", "exists", "implies", "old")):
+        if name in speclang.SPEC and (ex.quiet or name in ("forall", "forall_q", "exists", "implies", "old")):
             return speclang.SPEC[name](ex, e, st)
         if name in st.env and isinstance(st.env[name], Obj) and st.env[name].cls == "Monitor":
             return monitor_call(ex, e, st)
@@ -90,6 +90,9 @@ def call_stmt(ex, e, st):
             return
     if isinstance(f, ast.Name) and f.id == "print":
         return
+    if isinstance(f, ast.Attribute) and f.attr == "__init__" and isinstance(f.value, ast.Call) and isinstance(f.value.func, ast.Name) \
+            and f.value.func.id == "super":
+        return          # DefaultBioFilter.__init__ only records the screen name
     if isinstance(f, ast.Name) and f.id == "cut":
         return cut(ex, e, st)
     if isinstance(f, ast.Name) and f.id in ("stash", "unstash"):
@@ -453,17 +456,32 @@ def apply_contract(ex, st, name, c, args, line):
         t = st.clone()
         t.env = dict(args)
         t.env["__old__"] = args
+        # the callee was verified for the values of its case-split parameters only
+        for p, allowed in c.get("split", {}).items():
+            a_ = args.get(p)
+            if isinstance(a_, Seq) and getattr(a_, "const", None) is not None:
+                if a_.const not in allowed:
+                    raise U(f"call of {name}: {p}={a_.const!r} is outside the callee's verified cases")
+            elif isinstance(a_, Seq) and all(isinstance(v_, str) and len(v_) == 1 for v_ in allowed):
+                ex.prove(st, f"call{k}:{name}:verified-case:{p}", z3.And(a_.n == 1, z3.Or(*[a_.at(0) == ord(v_) for v_ in allowed])), line)
+            elif z3.is_expr(a_) and all(isinstance(v_, int) and not isinstance(v_, bool) for v_ in allowed):
+                ex.prove(st, f"call{k}:{name}:verified-case:{p}", z3.Or(*[toint(a_) == v_ for v_ in allowed]), line)
+            elif z3.is_expr(a_) and z3.is_bool(a_):
+                sv_ = z3.simplify(a_)
+                if not ((z3.is_true(sv_) and True in allowed) or (z3.is_false(sv_) and False in allowed)):
+                    raise U(f"call of {name}: {p} is outside the callee's verified cases")
         # the callee's parameter shapes are part of its precondition
         for p, shape in c.get("params", {}).items():
             shape_ok = shape_pred(ex, args.get(p), shape)
             if shape_ok is not None:
                 ex.prove(st, f"call{k}:{name}:param-shape:{p}", shape_ok, line)
-        for label, txt in c.get("requires", {}).items():
+        for label, txt in list(c.get("requires", {}).items()) + list(c.get("stashed_requires", {}).items()):
             ex.quiet += 1
             g = tobool(ex.ev(speclang.parse(txt), t))
             ex.quiet -= 1
             ex.prove(st, f"call{k}:{name}:requires:{label}", g, line)
-            st.assume(g)
+            if label not in c.get("stashed_requires", {}):
+                st.assume(g)
         for exc, txt in c.get("raises", {}).items():
             if txt is None:
                 raise U(f"callee {name} may raise {exc} without a stated condition")
@@ -482,8 +500,8 @@ def apply_contract(ex, st, name, c, args, line):
         if hit is not None:
             res, ghosts = hit
         else:
-            res = shapes.fresh_of(ex, st, ret, f"{name}_res")
-            ghosts = {g: shapes.fresh_of(ex, st, shape, f"{name}_{g}") for g, shape in c.get("ghost_returns", {}).items()}
+            res = shapes.fresh_of(ex, st, ret, f"{name}_res", scope=t)
+            ghosts = {g: shapes.fresh_of(ex, st, shape, f"{name}_{g}", scope=t) for g, shape in c.get("ghost_returns", {}).items()}
             memo[mkey] = (res, ghosts)
         t.env["result"] = res
         t.pc = st.pc
